@@ -105,6 +105,26 @@ statechart:
       - event: bad
         action: x -= 100
 '''
+# a property statechart bound to the interpreter (part of what is snapshotted): it counts the consumed events in
+# its own context and becomes final at the fifth one - PropertyStatechartError must then be raised by the
+# original and by every restored copy at the same call
+PROP = '''
+statechart:
+  name: c18-property
+  preamble: seen = 0
+  root state:
+    name: p
+    initial: counting
+    states:
+    - name: counting
+      transitions:
+      - event: event consumed
+        action: seen += 1
+      - guard: seen >= 5
+        target: failed
+    - name: failed
+      type: final
+'''
 OPS = ['go', 'inc', 'pause', 'resume', 'bad', 'clock+2', 'step', 'job', 'job_d']
 _SC = []
 
@@ -135,8 +155,14 @@ def apply(it, op):
         return ('exc', type(e).__name__, str(getattr(e, 'condition', ''))[:40])
 
 
+_PROP = []
+
+
 def fresh(hist):
     it = Interpreter(sc())
+    if not _PROP:
+        _PROP.append(import_from_yaml(PROP))
+    it.bind_property_statechart(_PROP[0])
     it.execute_once()
     for op in hist:
         apply(it, op)
